@@ -18,7 +18,7 @@ func init() {
 	Register(&Spec{
 		ID:        "C12",
 		Technique: "runtime monitoring: random edit histories on hclwrite trees checked after every step against an executable list/map model, the tree-invariant hook (VerifCheckTree), a re-parse of the serialised file and the API's own read accessors",
-		Rule: "each case is an initial file (empty; built through the API; parsed from a generated configuration with comments, with or without final newline, with one-line and empty blocks) and a seeded history of 1-40 operations (SetAttributeValue/Traversal/Raw, RenameAttribute, RemoveAttribute, AppendNewBlock, AppendBlock(NewBlock), RemoveBlock, Block.SetType, Block.SetLabels) on random bodies of the tree, with targets drawn from existing, absent, just-removed and just-renamed names; label slices handed to or returned by the API are overwritten by the caller afterwards; the variable references exposed by every analysed attribute of the edited tree are compared with those of the tree loaded from its own serialisation; " +
+		Rule: "each case is an initial file (empty; built through the API; parsed from a generated configuration with comments, with or without final newline, with one-line and empty blocks) and a seeded history of 1-40 operations (SetAttributeValue/Traversal/Raw, RenameAttribute, RemoveAttribute, AppendNewBlock, AppendBlock(NewBlock), RemoveBlock, Block.SetType, Block.SetLabels, Clear of the file's own body followed by re-appending the blocks it held) on random bodies of the tree, with targets drawn from existing, absent, just-removed and just-renamed names; label slices handed to or returned by the API are overwritten by the caller afterwards; the variable references exposed by every analysed attribute of the edited tree are compared with those of the tree loaded from its own serialisation; " +
 			"non-trivial = history length >= 3 with >= 2 distinct operation kinds; distinct by initial source + operation list",
 		Assumptions: []string{"hclsyntax.ParseConfig is the reference reader of the serialised file", "the model is the simple ordered-list semantics the API documents (set = replace in place or append; rename in place; remove)"},
 		Quick:       Plan{Batches: 16, PerBatch: 500, MinNonTrivial: 5000},
@@ -511,8 +511,28 @@ func c12Case(c *core.Case) {
 			}
 			b.touchUp()
 		}
-		op := r.Intn(12)
+		op := r.Intn(13)
 		switch op {
+		case 12:
+			// everything in the file's own body is removed at once; the blocks
+			// it held can be appended again through the handles kept
+			if b.owner != nil || gen.Chance(r, 0.5) {
+				continue
+			}
+			history = append(history, fmt.Sprintf("%s: Clear()", bodyPath(b)))
+			record()
+			b.w.Clear()
+			for _, it := range b.items {
+				if it.isBlock {
+					removedBlocks = append(removedBlocks, it.wblock)
+					removedItems[it.wblock] = it
+				} else {
+					removedNames = append(removedNames, it.name)
+				}
+			}
+			b.items = nil
+			b.touchUp()
+			kinds["Clear"] = true
 		case 0, 1:
 			name := pickAttrName()
 			v := c11Value(c, 1)
